@@ -4,6 +4,7 @@ import (
 	"testing"
 
 	"verif/harness/common"
+	"verif/harness/core"
 	simrt "verif/sim/rt"
 )
 
@@ -20,6 +21,18 @@ var props = []*common.Prop{
 		Gen:    func(r *simrt.Rand, tier string, idx int) interface{} { return genOwnE2E(r, tier, idx) },
 		Run:    runOwnE2E,
 		Shrink: shrinkOwnE2E},
+	common.Combine("C16",
+		common.Part{Name: "deadlines", P: core.Prop("C16"), Weight: 3},
+		common.Part{Name: "keepalive", Weight: 1, P: &common.Prop{ID: "C16", New: func() interface{} { return &KACase{} },
+			Gen:    func(r *simrt.Rand, tier string, idx int) interface{} { return genKACase(r, tier) },
+			Run:    runKA,
+			Shrink: shrinkKA}}),
+	common.Combine("C18",
+		common.Part{Name: "core", P: core.Prop("C18"), Weight: 3},
+		common.Part{Name: "http", Weight: 1, P: &common.Prop{ID: "C18", New: func() interface{} { return &HTTPStopCase{} },
+			Gen:    func(r *simrt.Rand, tier string, idx int) interface{} { return genHTTPStopCase(r, tier) },
+			Run:    runHTTPStop,
+			Shrink: shrinkHTTPStop}}),
 }
 
 func TestWorker(t *testing.T) { common.WorkerMain(t, props) }
